@@ -370,11 +370,13 @@ class Engine:
         self.loops.append(L)
         has_default = any(None in [l for l in a['labels']] for a in arms)
         fall = set()
+        explicit = [l for a in arms for l in a['labels'] if l is not None]
         for a in arms:
             entry = set()
             for lab in a['labels']:
                 for st in sts:
-                    r = self.c.on_cond({'k': 'case', 'sw': s['cond'], 'v': lab}, st, True)
+                    # for the default label the client also gets the explicit labels of the switch (the default is taken only for other values)
+                    r = self.c.on_cond({'k': 'case', 'sw': s['cond'], 'v': lab, 'others': explicit}, st, True)
                     if r is not None:
                         entry.add(r)
             cur = entry | fall
